@@ -8,7 +8,7 @@
    particular no genericity: repeated and zero eigenvalues are covered. *)
 From Coq Require Import String List Reals.
 Import ListNotations.
-From FV.C17 Require Import Model ProofsSym ProofsPoly ProofsEig.
+From FV.C17 Require Import Model ProofsSym ProofsPoly ProofsEig ProofsAlign.
 From FV.C17.gen Require Import TensorIdx.
 Open Scope R_scope.
 
@@ -109,6 +109,20 @@ Theorem C17_lte_names_link :
   convert_lte_local2global_writes = convert_lte_global2local_reads.
 Proof. split; reflexivity. Qed.
 
+(* ---- sparse alignment (hand model of the scipy operations; exact arithmetic) ----
+   for every list of same-shape matrices in canonical CSR form (ascending flat
+   keys), whatever their patterns, signs and stored zeros: align_nnz succeeds,
+   returns one matrix per input, all with the same ascending pattern = the union
+   of the input patterns, and every entry (stored or not) keeps its value *)
+Theorem C17_align_nnz_values :
+  forall (size : Z) (Ms : list (smatrix R)), Forall swf Ms ->
+  exists As, align_nnz ROps size Ms = Some As /\ length As = length Ms /\
+    forall i M A, nth_error Ms i = Some M -> nth_error As i = Some A ->
+      swf A /\
+      (forall key, In key (skeys A) <-> exists M', In M' Ms /\ In key (skeys M')) /\
+      (forall key, sget ROps A key = sget ROps M key).
+Proof. exact align_nnz_values. Qed.
+
 (* ---- no in-place write reaches a caller-owned array (translator's
         conservative alias summary; object identity itself is checked by the
         correspondence only) ---- *)
@@ -119,5 +133,8 @@ Proof. reflexivity. Qed.
 Example C17_example_order : is_perm 6 [5; 3; 1; 0; 2; 4]%nat = true /\
                             inv_perm 6 [5; 3; 1; 0; 2; 4]%nat = [3; 2; 4; 1; 5; 0]%nat.
 Proof. split; reflexivity. Qed.
+Example C17_align_premise_satisfiable :
+  Forall swf [[(0%Z, 1); (2%Z, -3)]; [(1%Z, 5); (2%Z, 0)]].
+Proof. exact align_example. Qed.
 Example C17_eigh_premise_satisfiable : eigh_ok (smat 1 0 0 2 0 3) ([1; 2; 3], I3).
 Proof. exact eigh_ok_diag. Qed.
